@@ -337,6 +337,32 @@ pub(crate) fn split_to_checked(
     Ok(buf.split_to(len))
 }
 
+/// Validates a container size read from the wire: it cannot be negative, and since
+/// every element occupies at least one byte it cannot exceed the bytes that remain.
+/// Decoders preallocate from this number.
+#[inline]
+pub(crate) fn checked_container_size(
+    size: i32,
+    remaining: usize,
+) -> Result<usize, ThriftException> {
+    if size < 0 {
+        return Err(new_protocol_exception(
+            super::ProtocolExceptionKind::NegativeSize,
+            format!("negative container size {}", size),
+        ));
+    }
+    if size as usize > remaining {
+        return Err(new_protocol_exception(
+            super::ProtocolExceptionKind::SizeLimit,
+            format!(
+                "container size {} exceeds the {} remaining bytes",
+                size, remaining
+            ),
+        ));
+    }
+    Ok(size as usize)
+}
+
 impl<B> ReadExt for B
 where
     B: bytes::Buf,
